@@ -135,16 +135,26 @@ Fixpoint zlist_eqb (a b : list Z) : bool :=
       ignores processedNodes, and prod-high source nodes are never recorded in it
    3  pools that overlap share one detector per node: a node that is a source in two pools is
       marked abnormal twice in one Balance call, and the gate opens after fewer rounds than
-      ConsecutiveAbnormalities requires (clauses 6 / 7) *)
+      ConsecutiveAbnormalities requires (clauses 6 / 7)
+   The shape is decided semantically, not by the clause number of the diagnosis: the pools overlap,
+   and (2) the model WITH the processedNodes repair passes on the same input, or (3) it does not
+   and some pool uses the gate. *)
 Definition finding_sig (inp obs : list Z) : Z :=
   let k := prop_case inp obs in
   if k =? 0 then 0
   else if negb (zlist_eqb obs (run_case inp)) then 0
   else if negb reset_on_normal && (k =? 7) then 1
-  else if negb processed_repaired && (k =? 11) then 2
-  else if (k =? 6) || (k =? 7) then
-    (let '(bc, ns, _) := decode inp in if disjoint_pools bc ns then 0 else 3)
-  else 0.
+  else
+    let '(bc, ns, rounds) := decode inp in
+    (* with pairwise disjoint pools the faithful model satisfies the property (c18_main) *)
+    if disjoint_pools bc ns then 0
+    (* the variant with the processedNodes repair does not fail on this input: re-entry *)
+    else if negb processed_repaired &&
+            (prop_code (tables reset_on_normal true bc ns rounds)
+                       (observed (run_gen reset_on_normal true bc ns rounds ([], []))) =? 0) then 2
+    (* it fails even so: only the gate is left (c18_main_overlap_repaired), detectors shared by overlapping pools *)
+    else if negb (no_gating bc) then 3
+    else 0.
 
 Require Extraction.
 Require Import ExtrOcamlBasic.
